@@ -797,6 +797,25 @@ class Engine:
         itname = f'_it{k}'
         self.env[itname] = lo
         self.env[f'_hi{k}'] = hi
+        if k == -1 and not self.unroll:
+            # a loop of an inlined / sequel function (no contract ordinal): unrolled 3 times with an unwinding
+            # obligation - complete when that obligation is discharged, a reported failure otherwise
+            for _ in range(3):
+                if not self.branch(zint(self.env[itname]) < zint(hi)):
+                    self.exec_block(n.orelse)
+                    return
+                self.store(n.target, get(self.env[itname]))
+                self.env[itname] = zint(self.env[itname]) + 1
+                try:
+                    self.exec_block(n.body)
+                except _Continue:
+                    pass
+                except _Break:
+                    return
+            self.oblige('unwind', f'for@{ast.unparse(n.iter)[:30]}', z3.Not(zint(self.env[itname]) < zint(hi)))
+            self.assume(z3.Not(zint(self.env[itname]) < zint(hi)))
+            self.exec_block(n.orelse)
+            return
         if self.unroll or k not in self.c.loops:
             if not self.unroll:
                 raise Unsupported(f'{self.c.qual}: for-loop {k} (line {n.lineno}) has no invariant')
@@ -1271,16 +1290,25 @@ class Engine:
             return self.eval(e.body)
         if z3.is_false(c):
             return self.eval(e.orelse)
-        self.pc.append(c)
-        try:
-            a = self.eval(e.body)
-        finally:
-            self.pc.pop()
-        self.pc.append(z3.Not(c))
-        try:
-            b = self.eval(e.orelse)
-        finally:
-            self.pc.pop()
+        failed = {}
+        vals = {}
+        for key, cond, node in (('a', c, e.body), ('b', z3.Not(c), e.orelse)):
+            self.pc.append(cond)
+            try:
+                vals[key] = self.eval(node)
+            except (Unsupported, PyRaise) as err:
+                # in a specification, a branch that cannot even be evaluated (e.g. a field of None) is acceptable
+                # only if the path condition rules that branch out
+                if not self.in_spec or self.feasible(z3.BoolVal(True)):
+                    raise
+                failed[key] = err
+            finally:
+                self.pc.pop()
+        if failed:
+            if len(failed) == 2:
+                raise failed['a']
+            return vals['b'] if 'a' in failed else vals['a']
+        a, b = vals['a'], vals['b']
         return self.ite(c, a, b)
 
     def ite(self, c, a, b):
@@ -1718,6 +1746,8 @@ class Engine:
             return recv.get(args[0], args[1] if len(args) > 1 else None)
         if hasattr(recv, 'method'):
             return recv.method(self, name, args, kwargs, e)
+        if isinstance(recv, (PyList, ArrList)) and not hasattr(list, name):
+            raise PyRaise('AttributeError')      # e.g. `xs.push(...)`: Python lists have no such method
         raise Unsupported(f'{self.c.qual}: method .{name} of {recv!r}')
 
     def inline(self, node, closure_env, args, kwargs, recv=None, cls=None):
@@ -1793,6 +1823,8 @@ class Engine:
         if len(cands) != 1:
             raise Unsupported(f'call of {cc.qual}: {len(cands)} contract variants fit this call site')
         cc = cands[0]
+        if cc.inline:
+            return self.inline(node, None, args, kwargs, recv=recv, cls=cc.qual.split('.')[0] if '.' in cc.qual else None)
         frame['__parent__'] = None
         short = cc.qual.split('.')[-1]
         
